@@ -264,7 +264,7 @@ func loadSlot(base *Agg, idx int) Value {
 
 func (in *Interp) strBytes(s Str) []*Term {
 	if s.Num != nil || s.FloatOf != nil {
-		panic(abortf("byte-level use of a numeric string"))
+		panic(opaqueUse("byte-level use of a numeric string"))
 	}
 	if s.B != nil {
 		return s.B
@@ -338,7 +338,7 @@ func (in *Interp) strConcat(a, b Str) Str {
 		if b.Len() == 0 && b.Num == nil {
 			return a
 		}
-		panic(abortf("concatenation with a numeric string"))
+		panic(opaqueUse("concatenation with a numeric string"))
 	}
 	if a.B == nil && b.B == nil {
 		return Str{S: a.S + b.S}
@@ -358,7 +358,7 @@ func (in *Interp) strConcat(a, b Str) Str {
 
 func (in *Interp) strSlice(s Str, lo, hi int) Str {
 	if s.Num != nil {
-		panic(abortf("slicing a numeric string"))
+		panic(opaqueUse("slicing a numeric string"))
 	}
 	if s.B == nil {
 		return Str{S: s.S[lo:hi]}
@@ -454,8 +454,14 @@ func (in *Interp) numStrEq(a, b Str) *Term {
 		}
 		return in.ts.Eq(a.Num, in.ts.BVConst(64, uint64(n)))
 	}
-	panic(abortf("comparison of numeric string with symbolic bytes"))
+	panic(pathEnd{Verdict{Kind: "ASSUME", Label: "numeric text compared with symbolic bytes (outside bound)"}})
 }
 
 // opaque: a []byte backing store that stands for the text of a symbolic number (no byte-level view).
 func (a *Agg) opaque() bool { return a != nil && (a.Num != nil || a.FloatOf != nil) }
+
+// opaqueUse: a numeric/float text (vfNumStr, FormatInt of a symbolic value) reached an operation that
+// needs its bytes. The path is dropped as outside the bound (label kept; counted as ASSUME).
+func opaqueUse(what string) pathEnd {
+	return pathEnd{Verdict{Kind: "ASSUME", Label: "numeric text used at byte level (outside bound): " + what}}
+}
